@@ -45,7 +45,7 @@ func NewType1Font(fontDict core.Dict, resolver func(core.IndirectRef) (core.Obje
 	baseFont := extractName(fontDict.Get("BaseFont"))
 	subtype := extractName(fontDict.Get("Subtype"))
 
-	if subtype != "Type1" {
+	if subtype != "Type1" && subtype != "MMType1" && subtype != "Type3" {
 		return nil, fmt.Errorf("not a Type1 font: %s", subtype)
 	}
 
